@@ -231,10 +231,15 @@ def run(ctx):
         shutil.rmtree(work, ignore_errors=True)
 
 
-def rules_cases(n):
+def rules_cases(n, sites=True):
     cases = []
     for ks in itertools.product(['simple', 'ifline', 'other'], repeat=n):
         for labs in itertools.product([False, True], repeat=n):
+            if not sites:
+                # only the line structure (colons, comments, inserted lines): no optional-syntax sites
+                cases.append({'stm': [{'k': k, 'lab': l, 'let': False, 'call': False, 'nxt': False, 'ne': False, 'lbl0': k == 'simple' and l, 'lbl1': False}
+                                      for k, l in zip(ks, labs)]})
+                continue
             # simple statements with a label are also given a CALL site whose bare form reads as a label
             cases.append({'stm': [{'k': k, 'lab': l, 'let': k == 'simple', 'call': k == 'simple', 'nxt': False, 'ne': k != 'other',
                                    'lbl0': k == 'simple' and l, 'lbl1': k == 'simple' and not l} for k, l in zip(ks, labs)]})
@@ -308,7 +313,9 @@ def _shrink_job(job):
 def _run(ctx, work):
     rng = random.Random(ctx.seed)
     # (a) the rules, exhaustively on small structures
-    rc = rules_cases(ctx.pick(3, 4))
+    rc = rules_cases(3)
+    if not ctx.quick():
+        rc += rules_cases(4, sites=False)
     rpath = os.path.join(work, 'rules.json')
     tlc.write_json(rpath, rc)
     r1 = tlc.run_tlc('MC_Rewrite', MC_CFG % (40, 0, 1, 1, 1, 'TRUE', 'VIEW V', ''), env={'CASES': rpath}, workers=12, timeout=3000, heap='10g')
